@@ -14,13 +14,16 @@ C10 — kernel-checked witnesses.
    * -idirafter directories searched before the system directories,
    * the single global `include_next_idx` (a cache hit did not update it; `search_include_next`
      left it at the directory found),
-   * a null directive glued to the next line.
+   * a null directive glued to the next line,
+   * an include cycle ran until memory was exhausted (b453bf4: nesting limit 200).
+
+3. The one place where the include-guard shortcut is observable: at the nesting limit.
 -/
 import ChibiVerif.Props.C10
 
 namespace ChibiVerif.Findings.C10
 open ChibiVerif.CondIncl ChibiVerif.PPExpr ChibiVerif.IncludeSearch ChibiVerif.Spec.CondIncl
-open ChibiVerif.Props.C10
+open ChibiVerif.Props.C10 ChibiVerif.IncludeDepth
 
 -- ================================================================== 1. known finding (open)
 
@@ -39,7 +42,7 @@ theorem C10_witness_shift_in_region : intResultOverflows [] shiftWitness = true 
 /-- **finding**: the full statement about #if arithmetic is false for the code as it is -/
 theorem C10_finding_ifexpr : ¬ C10_ifexpr_Statement := by
   intro h
-  have := h [] shiftWitness
+  have := h [] shiftWitness (by decide)
   rw [C10_witness_shift_spec, C10_witness_shift_code] at this
   exact absurd this (by decide)
 
@@ -52,9 +55,18 @@ theorem C10_finding_groups_c11 : ¬ C10_groups_c11_Statement := by
   intro h
   have h1 : condMachine evC shiftUnit [] = .ok ⟨[], [["no"]]⟩ := by decide
   have h2 : groups ev shiftUnit [] = .ok ⟨[], [["yes"]]⟩ := by decide
-  have := h shiftUnit []
+  have := h shiftUnit [] (by decide)
   rw [h1, h2] at this
   exact absurd this (by decide)
+
+/-- the region is a sufficient condition, not an exact one, and no region short of "the two evaluators differ" can be
+    exact: `(1 < 2) << 40 || 1` and `((1 < 2) << 40) * 0 == 0` lie in the region (the shifted comparison result is evaluated
+    and loses its bit), yet the truth value of the whole expression is the same – whether a lost bit reaches the result
+    depends on the values around it -/
+theorem C10_region_not_exact :
+    let w1 : Expr := .bin .lor shiftWitness (.num 1 false)
+    let w2 : Expr := .bin .eq (.bin .mul shiftWitness (.num 0 false)) (.num 0 false)
+    intResultOverflows [] w1 = true ∧ evC w1 [] = ev w1 [] ∧ intResultOverflows [] w2 = true ∧ evC w2 [] = ev w2 [] := by decide
 
 /-- neighbours of the witness outside the region agree (shift by 30; multiplication instead of shift) -/
 theorem C10_witness_shift_neighbours :
@@ -143,6 +155,64 @@ theorem C10_fixed_include_next_self :
     let fsx : String → Bool := fun p => p == "A/x.h" || p == "B/x.h" || p == "C/x.h"
     firstExisting fsx (["A", "B", "C"].drop 1) "x.h" = some "B/x.h" ∧       -- old: index stays 1 after finding B/x.h
     searchIncludeNext fsx ["A", "B", "C"] "x.h" "B/x.h" = some "C/x.h" := by decide
+
+-- ================================================================== 2e. repaired: include cycles
+
+/-- the file system in which every path names the one-line file `#include "f"` (old machine) -/
+def cycleFS : FS ε β := fun _ => some [.incl true "f"]
+/-- … and for the machine with the nesting limit -/
+def cycleXFS : XFS ε β := fun _ => some [.base (.incl true "f")]
+
+theorem cycleXFS_resolve (paths : List String) (cache : Cache) (file : String) :
+    (resolveInclude (cycleXFS : XFS ε β).has paths cache file true "f").1 = joinPath (dirname file) "f" := by
+  have ha : isAbs "f" = false := by decide
+  simp [resolveInclude, ha, XFS.has, cycleXFS]
+
+/-- before b453bf4 (`runInc`, no nesting limit): the cycle exhausts every step budget – cc1 included until
+    memory was exhausted -/
+theorem C10_fixed_include_cycle_old (ev : ε → Defs β → Except Diag Bool) (paths : List String) :
+    ∀ (fuel : Nat) (file : String) (s : IState β), s.once = [] → s.guards = [] →
+      runInc ev (cycleFS : FS ε β) paths true fuel [(file, .incl true "f")] .proc s = .error .outOfFuel
+  | 0, _, _, _, _ => rfl
+  | fuel + 1, file, s, ho, hg => by
+    simp only [runInc, stepInc, includeFile, ho, hg, guardOf, List.find?_nil, Option.map_none, List.contains_nil,
+      Bool.false_eq_true, if_false, Bool.and_false, FS.get, cycleFS, List.map_cons, List.map_nil, detectGuard,
+      ILine.toLine, List.append_nil]
+    exact C10_fixed_include_cycle_old ev paths fuel _ _ rfl rfl
+
+/-- since b453bf4: for EVERY nesting limit `r` the cycle ends with the located diagnostic (at line 1 of the
+    innermost file opened) -/
+theorem C10_fixed_include_cycle (ev : ε → Defs β → Except Diag Bool) (xp : Xp β) (paths : List String) (b : Bool) :
+    ∀ (r : Nat) (file : String) (s : IState β), s.once = [] → s.guards = [] →
+      ∃ f, runAt ev xp (cycleXFS : XFS ε β) paths b r file [.base (.incl true "f")] .proc s = .error (.nestedTooDeeply f 1)
+  | 0, file, s, ho, hg => by
+    refine ⟨file, ?_⟩
+    simp [runAt, runLines, preStep, inclTarget, mkTarget, shortcutFires, ho, hg, guardOf]
+  | r + 1, file, s, ho, hg => by
+    obtain ⟨f, hf⟩ := C10_fixed_include_cycle ev xp paths b r (joinPath (dirname file) "f")
+      ({ s with cache := (resolveInclude (cycleXFS : XFS ε β).has paths s.cache file true "f").2 } : IState β) ho hg
+    refine ⟨f, ?_⟩
+    simp only [runAt, runLines, preStep, inclTarget, mkTarget, shortcutFires, ho, hg, guardOf, List.find?_nil, Option.map_none,
+      List.contains_nil, Bool.and_false, Bool.or_false, Bool.false_eq_true, if_false, cycleXFS_resolve,
+      openFile, XFS.get, cycleXFS, List.map_cons, List.map_nil, detectGuard, XLine.toLine, ILine.toLine]
+    rw [ho, hg] at hf
+    rw [hf]
+
+-- ================================================================== 3. the shortcut at the nesting limit
+
+/-- m.c: `#include "g.h"`, `#include "a.h"`; a.h: `#include "g.h"`; g.h guarded.  With nesting limit 1 the
+    second `#include "g.h"` stands in a file of depth 1: include_file's guard shortcut returns before the nesting
+    test, plain textual inclusion is refused.  This is the only way in which `C10_shortcuts_graph` fails to be an
+    equivalence (with the real limit: a guarded header named again from a file at depth 200). -/
+theorem C10_shortcut_at_limit :
+    let fs : XFS Bool Unit := XFS.ofTable [("m.c", [.base (.incl true "g.h"), .base (.incl true "a.h")]),
+      ("./a.h", [.base (.incl true "g.h")]),
+      ("./g.h", [.base (.c (.opens (.ifndef "G" false))), .base (.c (.plain (.define "G" ()))), .base (.c (.plain (.text ["g"]))),
+        .base (.c (.endif false))])]
+    let xp : Xp Unit := fun _ _ ts => .ok ts
+    includeRun (fun b _ => .ok b) xp fs [] [] [] "m.c" true 1 = .ok ⟨[("G", ())], [["g"]]⟩ ∧
+    includeRun (fun b _ => .ok b) xp fs [] [] [] "m.c" false 1 = .error (.nestedTooDeeply "./a.h" 1) ∧
+    includeRun (fun b _ => .ok b) xp fs [] [] [] "m.c" false 2 = .ok ⟨[("G", ())], [["g"]]⟩ := by decide +kernel
 
 -- ================================================================== 2d. repaired: null directive glued to the next line
 
